@@ -28,8 +28,13 @@ func TestC08(t *testing.T) {
 	s3pu.name = "S3-canary-paused-unpaused-before"
 	s3pu.first = []w.Event{evb("setTemplate", edsKey, "B"), ev("R_eds", edsKey), ev("R_eds", edsKey), evb("kubectl", edsKey, "canary-pause"), evb("kubectl", edsKey, "canary-unpause")}
 	scs = append(scs, s3pu)
+	// a canary that pauses itself (restarts above autoPause.maxRestarts: only the replica set's condition says so) and whose
+	// duration then runs out: elapsed time must not promote it
+	s3ap := corpusS3(n2, "1", "auto", 2, &w.Alpha{PodDev: []string{"restart:2"}, Ticks: []int{700}})
+	s3ap.name = "S3-canary-auto-paused-duration-elapses"
+	scs = append(scs, s3ap)
 	if h.Thorough() {
-		scs = []scOpt{s3pu, corpusS2(n3, "1", 2, toggles), corpusS2(n2, "1", 3, toggles), corpusS3(n3, "2", "auto", 3, canaryToggles)}
+		scs = []scOpt{s3pu, s3ap, corpusS2(n3, "1", 2, toggles), corpusS2(n2, "1", 3, toggles), corpusS3(n3, "2", "auto", 3, canaryToggles)}
 	}
 	type start struct {
 		sc *w.Scenario
